@@ -60,7 +60,7 @@ type RunSpec struct {
 	ScenarioFn        f1testing.ScenarioFn
 	Metrics           *metrics.Metrics // optional: reuse an instance across runs
 	Labels            map[string]string
-	Quiet             bool // discard output instead of capturing it
+	Quiet             bool   // discard output instead of capturing it
 	Scenario          string // scenario name (default "s")
 }
 
